@@ -224,11 +224,11 @@ func c18RawCRun(t *testing.T, c c18RawCCase) c18RawOutcome {
 		if co.err == nil && !bytes.HasPrefix(m.body, co.body) {
 			x.fail("rawc:response-body-altered", "%s: the %d bytes the client read are not a prefix of the %d bytes the server sent", tag, len(co.body), len(m.body))
 		}
-		if co.err == nil && co.bodyDone && co.contentLength >= 0 {
-			if int64(len(co.body)) > co.contentLength {
-				x.fail("long-body-silent:response", "%s: client read %d body bytes although the response declared Content-Length %d", tag, len(co.body), co.contentLength)
-			} else if co.bodyErr == nil && int64(len(co.body)) < co.contentLength {
-				x.fail("short-body-silent-eof:response", "%s: Response.Body ended in plain io.EOF after %d bytes although the response declared Content-Length %d (silent truncation)", tag, len(co.body), co.contentLength)
+		if co.err == nil && co.bodyDone && co.declaredCL >= 0 {
+			if int64(len(co.body)) > co.declaredCL {
+				x.fail("long-body-silent:response", "%s: client read %d body bytes although the response declared Content-Length %d", tag, len(co.body), co.declaredCL)
+			} else if co.bodyErr == nil && int64(len(co.body)) < co.declaredCL {
+				x.fail("short-body-silent-eof:response", "%s: Response.Body ended in plain io.EOF after %d bytes although the response declared Content-Length %d (silent truncation)", tag, len(co.body), co.declaredCL)
 			}
 		}
 		permitted := sc.ConnErr == 0
